@@ -13,6 +13,7 @@ fn main() {
     use fe2o3_amqp_types::performatives::{Begin, End, Flow, Transfer};
     use fe2o3_amqp_types::states::SessionState;
     use serde_bytes::ByteBuf;
+    use std::future::Future;
     use std::io::BufRead;
 
     fn sstate(i: u64) -> SessionState {
@@ -147,6 +148,57 @@ fn main() {
             "nsettled" => {
                 let n = num_messages_settled_by_disposition(nums[0] as u32, if nums[1] == 1 { Some(nums[2] as u32) } else { None });
                 format!("{{\"n\":{}}}", n)
+            }
+            // wakeup <pos> <credit>: one waiter with no credit, one grant of <credit> placed
+            //   pos 0: before the first poll, 1: at the cfg schedule point (between the failed credit
+            //   check and the creation of the wait future), 2: after the first poll returned Pending;
+            // then the waiter is polled again. Real Consumer/Producer/tokio::Notify.
+            "wakeup" => {
+                use std::sync::atomic::{AtomicBool, AtomicU32, Ordering};
+                static IN_WINDOW: AtomicBool = AtomicBool::new(false);
+                static CREDIT: AtomicU32 = AtomicU32::new(0);
+                static mut PRODUCER: Option<VCreditProducer> = None;
+                fn grant() {
+                    #[allow(static_mut_refs)]
+                    unsafe {
+                        if let Some(p) = PRODUCER.as_mut() {
+                            let flow = VLinkFlow { handle: 0, delivery_count: None, link_credit: Some(CREDIT.load(Ordering::SeqCst)), available: None, drain: false, echo: false };
+                            let mut cx = std::task::Context::from_waker(std::task::Waker::noop());
+                            let mut f = Box::pin(p.produce(flow, 0));
+                            let _ = f.as_mut().poll(&mut cx);
+                        }
+                    }
+                }
+                fn hook() {
+                    if IN_WINDOW.swap(false, Ordering::SeqCst) {
+                        grant();
+                    }
+                }
+                let pos = nums[0];
+                CREDIT.store(nums[1] as u32, Ordering::SeqCst);
+                let st = VSenderFlow::new(VFlowInner { initial_delivery_count: 7, delivery_count: 7, link_credit: 0, available: 0, drain: false });
+                let (consumer, producer) = st.split(std::sync::Arc::new(tokio::sync::Notify::new()));
+                unsafe {
+                    PRODUCER = Some(producer);
+                }
+                IN_WINDOW.store(pos == 1, Ordering::SeqCst);
+                set_schedule_hook(Some(hook));
+                if pos == 0 {
+                    grant();
+                }
+                let mut fut = Box::pin(consumer.consume(1));
+                let mut cx = std::task::Context::from_waker(std::task::Waker::noop());
+                let first = fut.as_mut().poll(&mut cx).is_ready();
+                let mut second = first;
+                if !first {
+                    if pos == 2 {
+                        grant();
+                    }
+                    second = fut.as_mut().poll(&mut cx).is_ready();
+                }
+                set_schedule_hook(None);
+                let c = st.snapshot().link_credit;
+                format!("{{\"first_ready\":{},\"second_ready\":{},\"credit_left\":{}}}", first, second, c)
             }
             _ => "{\"error\":\"unknown command\"}".to_string(),
         });
